@@ -717,6 +717,41 @@ theorem collect_accepted (esc : Bytes → Bytes) (sc : Scenario) (hv : Spec.scen
     exact this.1.2
   exact gather_accepts _ (collect_help_type_consistent esc sc hnames) hd
 
+/-- A first scrape (empty cache) in the multi-scrape model is the single-scrape model. -/
+theorem collectFrom_nil (esc : Bytes → Bytes) (sc : Scenario) : (collectFrom esc sc []).1 = collect esc sc := rfl
+
+/-- Scrapes are independent functions of their own exporter's state: in any sequence of scrapes of any number of
+exporters (any interleaving order), what the scrapes of exporter `a` send is what they would send if the scrapes of all
+other exporters had never happened — whatever the other exporters' data and caches are (`w`, `w'` only have to agree on
+`a`). This is the obligation the real code meets only if the pooled ResourceMetrics buffer is private to one Collect call
+(seeded change C18-7 broke it by putting the buffer back twice); the forced-overlap harness ties it to the code. -/
+theorem scrape_independent_of_other_scrapes (esc : Bytes → Bytes) (a : Nat) :
+    ∀ (ops : List ScrapeOp) (w w' : World), w a = w' a →
+      (runScrapes esc w ops).filter (fun r => r.1 == a) = runScrapes esc w' (ops.filter (fun o => o.1 == a)) := by
+  intro ops
+  induction ops with
+  | nil => intro w w' _; rfl
+  | cons o rest ih =>
+    intro w w' hw
+    obtain ⟨id, sc⟩ := o
+    by_cases hid : id = a
+    · subst hid
+      have hf : ((id, sc) :: rest).filter (fun o => o.1 == id) = (id, sc) :: rest.filter (fun o => o.1 == id) := by
+        simp
+      rw [hf]
+      simp only [runScrapes, List.filter_cons, beq_self_eq_true, if_true, hw]
+      congr 1
+      exact ih _ _ (by simp)
+    · have hb : (id == a) = false := by simp [hid]
+      have hf : ((id, sc) :: rest).filter (fun o => o.1 == a) = rest.filter (fun o => o.1 == a) := by
+        simp [hb]
+      rw [hf]
+      simp only [runScrapes, List.filter_cons, hb, Bool.false_eq_true, if_false]
+      apply ih
+      have : (a == id) = false := by simp [Ne.symm hid]
+      simp only [this, Bool.false_eq_true, if_false]
+      exact hw
+
 /-- F34 (repaired in de0451a), documented on the OLD code: `validateMetricsOld` answered a description conflict whose
 first description is empty with help "", which the old call site read as "no conflict" — the second series kept its own
 help "second" although the family was registered with "". -/
@@ -906,5 +941,11 @@ example : exemplarsOut escUnderscore false .histogram (.hist 4 1268 [0, 20, 40] 
 -- presence: in exScenario the gauge "req" comes after the counter "req.total" but maps to another family: it is sent
 example : (collect escUnderscore exScenario).any (fun e => e.name == b "ns_req_seconds" && e.payload == OutPayload.num 8) = true := by
   decide
+
+-- two exporters, interleaved scrapes A B A: A's two scrapes send what they send without B (second A scrape: cache kept)
+example : ((runScrapes escUnderscore (fun _ => []) [(0, exScenario), (1, { exScenario with res := [(b "k", b "other")] }), (0, exScenario)]).filter
+      (fun r => r.1 == 0)).map (fun r => r.2.map (·.name)) =
+    [[b "target_info", b "otel_scope_info", b "ns_req_seconds_total", b "ns_req_seconds", b "ns_lat_milliseconds"],
+     [b "target_info", b "otel_scope_info", b "ns_req_seconds_total", b "ns_req_seconds", b "ns_lat_milliseconds"]] := by decide
 
 end Otel.C18
